@@ -317,7 +317,8 @@ func Verif_C12_store() {
 // Multi-key Del ---------------------------------------------------------------
 
 func Verif_C12_store_del() {
-	plain := verifChoose("form", 2) == 0
+	c := verifCase(8) // form x number of named keys
+	plain := c&1 == 0
 	nodes := verifParam("nodes")
 	if verifChoose("cluster", 2) == 1 {
 		nodes = 0 // no node configured
@@ -334,9 +335,11 @@ func Verif_C12_store_del() {
 			down[i] = true
 			f.err = errors.New("verif: node down")
 		}
-		f.i = int64(verifChoose("removed", 2))
+		f.i = verifInt64("removed")
+		verifAssume(f.i >= 0)
+		verifAssume(f.i <= 1)
 	}
-	nk := verifChoose("keys", 4) // 0..3 keys
+	nk := c >> 1 // 0..3 keys
 	keys := []string{e.str("key0"), e.str("key1"), e.str("key2")}[:nk]
 	var v int
 	var err error
